@@ -402,7 +402,7 @@ prop('C06', fam_names('afm'), name_classes=('afmword',), base_class='afmword', n
      assumptions=['names match the AFM WORD token; attribute names the LOWERCASE token; enumerated domain elements, '
                   'default and null values are text tokens; range bounds are integers'])(roundtrip_script('afm'))
 UVL_NAME_CLASSES = ('space', 'edgespace', 'punct', 'uvlkw', 'opword', 'digit0', 'under0', 'nonascii')
-prop('C01', fam_names('uvl'), name_classes=UVL_NAME_CLASSES, naming_matters=True,
+prop('C01', fam_names('uvl'), name_classes=UVL_NAME_CLASSES, naming_matters=True, name_stride={'quick': 4, 'thorough': 3},
      assumptions=['names carry no double quote, dot or newline; strings no apostrophe; floats have a plain decimal repr'])(
     roundtrip_script('uvl'))
 
